@@ -105,9 +105,20 @@ def check_pair(desc):
             return {"nontrivial": False, "labels": ["skipped"]}
         if len(sg.model_dof_entities(g, sd["kind"], kw)) == 0:
             return {"nontrivial": False, "labels": ["skipped"]}
+    vector = fam == "maxwell"
+    if vector and op == "E":
+        # The electric-field *matrix* is the integrated-by-parts form (surface curl of the test function); it equals the tested potential
+        # only for test functions without tangential trace on the boundary of their support (no boundary half-functions on an open
+        # support) - the same line-term exemption as for curl H / div E in C08. Not claimed otherwise.
+        kwt = sg.space_kwargs(gt, desc["test"])
+        ibd_t, _tr = sg.effective_options(desc["test"]["kind"], kwt)
+        req = sg.requested_support(gt, kwt)
+        topo = mg.topology(np.asarray(gt.elements).astype(int))
+        open_support = any(sum(1 for e in elems if req[e]) == 1 for elems in topo["edges"].values())
+        if ibd_t and open_support:
+            return {"nontrivial": False, "labels": ["skipped_E_test_boundary_halffunctions"]}
     st, _ = sg.build_space(gt, desc["test"])
     sd_, _ = sg.build_space(gd, desc["trial"])
-    vector = fam == "maxwell"
     orders = [desc["order"]] if not (vector and op == "E") else desc.get("ladder", [3, 6, 10])
     errs = []
     for order in orders:
